@@ -213,6 +213,10 @@ def mk_cell(ctx, tmpl, tag, idx=None):
         md["scrolled"] = False
     if tmpl.get("lol"):
         md["lol"] = [[ctx.md(tag)], [2, 3]]
+    if tmpl.get("stale"):
+        md["nbdime-conflicts"] = {"local_diff": [], "remote_diff": []}
+    if tmpl.get("nums"):
+        md["nums"] = [ctx.md(tag)]
     cell = {"cell_type": t, "metadata": md, "source": tmpl.get("text") or SRC[tmpl["src"]][0]}
     if t == "code":
         cell["execution_count"] = ctx.ec(tag)
@@ -223,6 +227,8 @@ def mk_cell(ctx, tmpl, tag, idx=None):
     if t == "markdown" and tmpl.get("att"):
         if tmpl["att"] is True:
             cell["attachments"] = {"pic.png": {"image/png": B64[0]}}
+        elif tmpl["att"] == "stale":
+            cell["attachments"] = {"pic.png": {"image/png": B64[0]}, "LOCAL_pic.png": {"image/png": B64[0]}}
         elif tmpl["att"] == "intlike":
             cell["attachments"] = {"1": {"image/png": B64[0]}, "pic.png": {"image/png": B64[0]}}
         else:
@@ -266,6 +272,9 @@ TEMPLATES = {
     "codeMime": dict(type="code", src="B", outputs=["html_upper"], md=0),
     "codeTr": dict(type="code", src="B", outputs=["result"], md=0, collapsed=True, scrolled=True),
     "codeLol": dict(type="code", src="A", outputs=[], md=0, lol=True),
+    "codeStale": dict(type="code", src="A", outputs=[], md=1, stale=True),
+    "mdStale": dict(type="markdown", src="M", md=0, att="stale"),
+    "codeNums": dict(type="code", src="B", outputs=[], md=0, nums=True),
     "md": dict(type="markdown", src="M", md=1, att=False),
     "mdAtt": dict(type="markdown", src="M", md=0, att=True),
     # attachment names / metadata keys that look like integers
@@ -282,6 +291,9 @@ NEW_TEMPLATES = {
     "N4": dict(type="raw", text=NEW_SRC["N4"], md=0),
     "N5": dict(type="code", text=NEW_SRC["N5"], outputs=[], md=0),
     "Ns": dict(type="code", text="s=4\n", outputs=[], md=0),
+    # the same id on both sides but different cell types (only meaningful with ids)
+    "Nxc": dict(type="code", text="shared id, code flavour\nsecond line\n", outputs=[], md=0, fixed_id="dup00000"),
+    "Nxm": dict(type="markdown", text="shared id, code flavour\nsecond line\n", md=0, fixed_id="dup00000"),
     # similar markdown cells whose attachments differ (same name, other content / other name)
     "NmA": dict(type="markdown", text=NEW_SRC["Nm"], md=0, att=True),
     "NmB": dict(type="markdown", text=NEW_SRC["Nm"] + "More.\n", md=1, att="other"),
@@ -293,12 +305,12 @@ NEW_TEMPLATES = {
 CODE_ACTIONS = ["keep", "del", "src1", "src2", "src3", "src4", "src6", "src7", "src8", "src9", "rerun", "ec",
                 "out_edit", "out_edit2", "out_clear", "out_add", "out_add2", "out_add_front", "out_del",
                 "out_del_last", "out_ec", "out_ptr", "rerun2", "out_edit_add", "out_edit2_add2", "out_edit_md",
-                "edit_rerun", "md_src", "collapsed_src", "md_empty_add", "md_empty_set", "tag_front", "tag_back", "md_scrolled_true",
+                "edit_rerun", "md_src", "collapsed_src", "md_empty_add", "md_empty_set", "unstale_edit", "nums_add", "nums_append", "nums_replace", "tag_front", "tag_back", "md_scrolled_true",
                 "md_scrolled_auto", "md_del_collapsed", "md_shift",
                 "md_edit", "md_add", "md_del", "md_collapsed", "id", "dup", "to_md"]
 MD_ACTIONS = ["keep", "del", "src1", "src2", "src3", "src4", "src6", "md_edit", "md_add",
               "att_add", "att_del", "att_edit", "att_rename", "id", "dup", "att_edit_1", "md_edit_2024",
-              "md_edit_note", "md_empty_add", "md_empty_set"]
+              "md_edit_note", "md_empty_add", "md_empty_set", "unstale_edit"]
 
 
 def _edit_output(ctx, out, variant, tag):
@@ -574,6 +586,31 @@ def apply_action(ctx, cell, action, tag):
             md[key] = ctx.md(tag)
         c["metadata"] = md
         return [c]
+    if action == "unstale_edit":
+        # clean up the record of an earlier conflicted merge and edit again
+        md = dict(cell["metadata"])
+        md.pop("nbdime-conflicts", None)
+        if "k0" in md:
+            md["k0"] = ctx.md(tag)
+        c["metadata"] = md
+        if "attachments" in cell:
+            att = {k: dict(v) for k, v in cell["attachments"].items() if not k.startswith("LOCAL_")}
+            if "pic.png" in att:
+                att["pic.png"] = {"image/png": B64[1]}
+            c["attachments"] = att
+        return [c]
+    if action in ("nums_add", "nums_append", "nums_replace"):
+        md = dict(cell["metadata"])
+        if "nums" in md:
+            cur = list(md["nums"])
+            if action == "nums_add":
+                md["nums"] = [ctx.md(tag)] + cur
+            elif action == "nums_append":
+                md["nums"] = cur + [ctx.md(tag)]
+            else:
+                md["nums"] = [ctx.md(tag)] + cur[1:]
+        c["metadata"] = md
+        return [c]
     if action in ("md_src", "collapsed_src"):
         step = apply_action(ctx, cell, "md_edit" if action == "md_src" else "md_collapsed", tag)[0]
         return apply_action(ctx, step, "src1", tag)
@@ -637,7 +674,7 @@ def derive(ctx, base, tag, actions, inserts, nb_action="keep"):
             for name in (ins if isinstance(ins, (list, tuple)) else [ins]):
                 tm = dict(NEW_TEMPLATES[name])
                 if ctx.with_ids:
-                    tm["id"] = NEW_IDS[tag[0] if tag[0] in NEW_IDS else "x"][min(nins, 2)] + name
+                    tm["id"] = tm.get("fixed_id") or (NEW_IDS[tag[0] if tag[0] in NEW_IDS else "x"][min(nins, 2)] + name)
                 cells.append(mk_cell(ctx, tm, "%s_i%d" % (tag, i)))
                 nins += 1
         if i < n:
